@@ -209,15 +209,18 @@ def uri_attrs():
     return sorted(URI_ATTRS, key=repr)
 
 
+KEY_URI_ATTRS = [(None, "href"), (None, "src"), (XLINK_NS, "href")]
+
+
 def _url_shard(args):
-    first, L = args
+    first, L = args[:2]
     res = {"evals": 0, "viol": {}, "kept": 0}
-    attrs = uri_attrs()
+    attrs = uri_attrs() if len(args) < 3 else args[2]
     for m in range(0, L):
         for rest in itertools.product(URL, repeat=m):
             val = first + "".join(rest)
             for key, elem, ns in [(k, "svg" if k[0] else "a", SVG_NS if k[0] else HTML_NS) for k in attrs] + \
-                    [(k, e, HTML_NS) for k, es in sorted(URI_ATTRS_ON.items()) for e in es]:
+                    ([(k, e, HTML_NS) for k, es in sorted(URI_ATTRS_ON.items()) for e in es] if len(args) < 3 else []):
                 stream = [{"type": "StartTag", "name": elem, "namespace": ns, "data": OrderedDict([(key, val), ((None, "title"), "t")])},
                           {"type": "EndTag", "name": elem, "namespace": ns}]
                 res["evals"] += 1
@@ -232,11 +235,15 @@ def _url_shard(args):
     return res
 
 
+CSS_CORE = ["url(", ")", "x", ":", ";", "background", "\\", "/*", "*/", " ", "#fff", "expression(", "u\\72l("]
+
+
 def _css_shard(args):
-    first, L = args
+    first, L = args[:2]
+    letters = CSS if len(args) < 3 else args[2]
     res = {"evals": 0, "viol": {}, "kept": 0}
     for m in range(0, L):
-        for rest in itertools.product(CSS, repeat=m):
+        for rest in itertools.product(letters, repeat=m):
             val = first + "".join(rest)
             stream = [{"type": "StartTag", "name": "p", "namespace": HTML_NS, "data": OrderedDict([((None, "style"), val)])},
                       {"type": "EndTag", "name": "p", "namespace": HTML_NS}]
@@ -283,7 +290,7 @@ def run(run):
     only = os.environ.get("VERIF_PARTS", "a,b,c").split(",")
     classes = {}
     if "a" in only:
-        depth = {"T1": 3, "T2": 3, "T5": 3, "T7": 3, "TX": 3} if quick else {"T1": 4, "T2": 4, "T3": 4, "T4": 4, "T5": 4, "T6": 4, "T7": 4, "TX": 4}
+        depth = {"T1": 3, "T2": 3, "T5": 3, "T7": 3, "TX": 3} if quick else {"T1": 3, "T2": 3, "T3": 3, "T4": 3, "T5": 3, "T6": 3, "T7": 3, "TX": 4}
         tot_s = tot_t = 0
         obs = set()
         for theme, d in depth.items():
@@ -301,8 +308,12 @@ def run(run):
         run.set("traces_validated_against_impl", tot_t)
         run.set("distinct_trees", len(obs))
     if "b" in only:
-        L = 3 if quick else 4
-        for r in engine.pmap(_url_shard, [(a, L) for a in URL] + [("", 1)], chunksize=1):
+        # every URL attribute with all values of <= 3 letters; the thorough tier adds all values of 4 letters for the three
+        # attributes that matter most (31^4 values x 20 attributes x 29 configurations would take hours)
+        shards = [(a, 3) for a in URL] + [("", 1)]
+        if not quick:
+            shards += [(a + b, 3, KEY_URI_ATTRS) for a in URL for b in URL]
+        for r in engine.pmap(_url_shard, shards, chunksize=1):
             run.add("url_evaluations", r["evals"])
             run.add("url_values_kept_by_default_config", r["kept"])
             for cls, (val, key, j) in r["viol"].items():
@@ -310,8 +321,11 @@ def run(run):
                     classes[cls] = engine.Violation(H, {"kind": "url", "attr": list(key), "config": j[2]}, val, "allow-listed output", j[3], j[0], cls)
         run.sample({"attr": "href", "value": "java\tscript:x"})
     if "c" in only:
-        L = 4 if quick else 5
-        for r in engine.pmap(_css_shard, [(a, L) for a in CSS] + [("", 1)], chunksize=1):
+        # all style values of <= 4 letters; the thorough tier adds all values of 5 letters over the 13-letter core
+        shards = [(a, 4) for a in CSS] + [("", 1)]
+        if not quick:
+            shards += [(a + b, 4, CSS_CORE) for a in CSS_CORE for b in CSS_CORE]
+        for r in engine.pmap(_css_shard, shards, chunksize=1):
             run.add("css_evaluations", r["evals"])
             run.add("css_values_kept_by_default_config", r["kept"])
             for cls, (val, key, j) in r["viol"].items():
